@@ -19,7 +19,12 @@
          TcCache::new       LruDiskCache::new = Lru.reopen (re-indexes the directory)
      - an upload cut short by a crash of the server followed by a restart
        ([TCrashUpload]): the disk at the crash point (temp file partly written),
-       then Lru.reopen. *)
+       then Lru.reopen;
+     - the final rename failing ([TInsertWithXdev]: NamedTempFile::persist in
+       LruDiskCache::commit returns an error - EXDEV when the shard directory is a
+       mount point of its own, EACCES, ENOSPC for the directory entry; [TInsertFileCopy]:
+       fs::rename in LruDiskCache::insert_file fails and the code falls back to
+       fs::copy, which either completes or stops part-way with an error). *)
 From Coq Require Import List NArith Bool.
 From Sccache Require Import Base.Sx.
 From Sccache Require Import Model.Lru.
@@ -155,6 +160,48 @@ Definition tc_insert_file (s : tst) (b : bytes) : tst * tres * option key * list
     | _ => (mk s l1, of_res r, None, [])
     end.
 
+(* LruDiskCache::commit when `file.persist(path)` FAILS (the rename to the final path is
+   refused): everything before it has happened - the handle is consumed, its reservation
+   released, make_space has evicted for the real size - then the error is returned; the temp
+   file is deleted when the PersistError is dropped, nothing was created at the final path
+   and the index is not touched.  (Lru.v's [commit] is the case where the rename succeeds.) *)
+Definition commit_rename_fails (s : st) (h : N) : st * res :=
+  match hlookup h (handles s) with
+  | None => (s, RBadHandle)
+  | Some hd =>
+      let s0 := set_handles s (hremove h (handles s)) (next_h s) in
+      let s1 := release s0 hd in
+      let '(ok, s2) := make_space s1 (h_written hd) in
+      (s2, if ok then RIoErr else RTooLarge)
+  end.
+
+(* TcCache::insert_with of a complete upload (the writer succeeds) whose final rename fails *)
+Definition tc_insert_with_xdev (s : tst) (i : id) (b : bytes) : tst * tres * option key :=
+  if negb (valid_id i) then (s, TRejected, None)
+  else
+    let '(l2, r, h) := receive s i b in
+    match r with
+    | ROk =>
+        if bytes_eqb (digest b) i then
+          let '(l3, r3) := commit_rename_fails l2 h in (mk s l3, of_res r3, None)
+        else (mk s (fst (abandon l2 h)), TRejected, None)
+    | _ => (mk s l2, of_res r, None)
+    end.
+
+(* TcCache::insert_file when fs::rename of the packaged archive fails: LruDiskCache::insert_file
+   falls back to fs::copy straight to the final path.  [fits] = the copy completes; otherwise
+   it stops part-way with an error and insert_by removes what is at the path (Lru.insert_by
+   with a failing writer). *)
+Definition tc_insert_file_copy (s : tst) (b : bytes) (fits : bool) : tst * tres * option key * list bytes :=
+  let i := digest b in
+  if negb (valid_id i) then (s, TRejected, None, [])
+  else
+    let '(l1, r, t) := insert_by (lru s) (key_path i) (Some (blen b)) (blen b) (negb fits) in
+    match r with
+    | ROk => (mk_put s l1 (key_path i) b, TOk, t, [i])
+    | _ => (mk s l1, of_res r, None, [])
+    end.
+
 (* TcCache::get: the bytes of the file, with their digest (what the monitor checks) *)
 Definition tc_get (s : tst) (i : id) : tst * tres * option key * list bytes :=
   if negb (valid_id i) then (s, TNotInCache, None, [])
@@ -175,6 +222,21 @@ Definition tc_remove (s : tst) (i : id) : tst * tres :=
 
 Definition tc_reopen (s : tst) (c : N) : tst := mk s (reopen (lru s) c).
 
+(* KNOWN FINDING C17-K1 (current tree): the process is killed while that fall-back copy has
+   written the first [k] bytes - the copy goes straight to the final path, after the old index
+   entry was forgotten - and the cache is started again with capacity [c].  Not an operation of
+   [top]: the theorems do not cover this crash point; C17_crash_in_fallback_copy_refuted shows
+   that they could not. *)
+Definition tc_crash_insert_file_copy (s : tst) (b : bytes) (k : nat) (c : N) : tst :=
+  let i := digest b in
+  if negb (valid_id i) then tc_reopen s c
+  else if negb (blen b <=? cap (lru s)) then tc_reopen s c
+  else
+    let l1 := lru_remove (lru s) (key_path i) in
+    let part := firstn k b in
+    let l2 := tick (set_files l1 (ains (key_path i) (blen part, clock l1 + 1) (files l1))) in
+    mk_put s (reopen l2 c) (key_path i) part.
+
 (* ---------- operations ---------- *)
 
 Inductive top :=
@@ -184,7 +246,9 @@ Inductive top :=
 | TGet (i : id)
 | TContains (i : id)
 | TRemove (i : id)
-| TReopen (c : N).
+| TReopen (c : N)
+| TInsertWithXdev (i : id) (b : bytes)
+| TInsertFileCopy (b : bytes) (fits : bool).
 
 Inductive tout :=
 | TORes (r : tres) (touched : option key) (ret : list bytes)
@@ -199,6 +263,8 @@ Definition tstep (s : tst) (o : top) : tst * tout :=
   | TContains i => (s, TOBool (tc_contains s i))
   | TRemove i => let '(s', r) := tc_remove s i in (s', TORes r None [])
   | TReopen c => (tc_reopen s c, TORes TOk None [])
+  | TInsertWithXdev i b => let '(s', r, t) := tc_insert_with_xdev s i b in (s', TORes r t [])
+  | TInsertFileCopy b fits => let '(s', r, t, ret) := tc_insert_file_copy s b fits in (s', TORes r t ret)
   end.
 
 Definition trun (s : tst) (ops : list top) : tst := fold_left (fun s o => fst (tstep s o)) ops s.
@@ -222,7 +288,17 @@ Record cst := { tcs : tst; weak : list (bytes * id) }.
 Inductive cop :=
 | CPut (w : bytes) (b : bytes) (fail : bool)
 | CGet (i : id)
-| CReopen (c : N).
+| CReopen (c : N)
+| CPutCopy (w : bytes) (b : bytes) (fits : bool).
+
+(* put_toolchain for a weak key that is not recorded yet; [ins] is the insert_file outcome *)
+Definition cput_new (s : cst) (w : bytes) (b : bytes)
+    (ins : tst * tres * option key * list bytes) : cst * tout :=
+  let '(s', r, t, ret) := ins in
+  match r with
+  | TOk => ({| tcs := s'; weak := (w, digest b) :: weak s |}, TORes r t ret)
+  | _ => ({| tcs := s'; weak := weak s |}, TORes r t ret)
+  end.
 
 Definition cstep (s : cst) (o : cop) : cst * tout :=
   match o with
@@ -231,12 +307,12 @@ Definition cstep (s : cst) (o : cop) : cst * tout :=
       | Some i => (s, TORes TOk None [i])
       | None =>
           if fail then (s, TORes TRejected None [])
-          else
-            let '(s', r, t, ret) := tc_insert_file (tcs s) b in
-            match r with
-            | TOk => ({| tcs := s'; weak := (w, digest b) :: weak s |}, TORes r t ret)
-            | _ => ({| tcs := s'; weak := weak s |}, TORes r t ret)
-            end
+          else cput_new s w b (tc_insert_file (tcs s) b)
+      end
+  | CPutCopy w b fits =>
+      match alookup w (weak s) with
+      | Some i => (s, TORes TOk None [i])
+      | None => cput_new s w b (tc_insert_file_copy (tcs s) b fits)
       end
   | CGet i => let '(s', r, t, ret) := tc_get (tcs s) i in ({| tcs := s'; weak := weak s |}, TORes r t ret)
   | CReopen c => ({| tcs := tc_reopen (tcs s) c; weak := weak s |}, TORes TOk None [])
